@@ -22,6 +22,7 @@ import (
 	"fmt"
 	"math/rand"
 	"os"
+	"regexp"
 	"sort"
 	"strconv"
 	"strings"
@@ -74,6 +75,11 @@ type input struct {
 	Goroutines int `json:"goroutines,omitempty"`
 	// ColdFirst: the concurrent rounds come before the sequential reference renders.
 	ColdFirst bool `json:"cold_first,omitempty"`
+	// Repeats: number of additional fresh renders of every document, each compared with the first
+	// one (every render meets new map iteration orders: an outcome that differs for one order in six
+	// needs several renders).  0 = extraRepeats for the documents of the biased generator, none for the
+	// others; witness files name a larger number.
+	Repeats int `json:"repeats,omitempty"`
 	// OtherOut: the fw.Out of this case observed in another process (replay of a D2 violation).
 	OtherOut string `json:"other_process_out,omitempty"`
 }
@@ -178,7 +184,7 @@ func init() {
 	fw.Register(&fw.Prop{
 		ID:   "C15",
 		Race: true,
-		Rule: "cases: (det) groups of 4 generated documents (60 % from a generator biased to ids/anchors/links, out-of-flow boxes broken at page boundaries, string-set/running elements, target-counter, per-document @counter-style definitions, hyphenation in 4 languages, data-URI and same-URL/different-content images, @font-face, tables/flex/grid/columns, pseudo-elements, invalid declarations, replacement user-agent sheets; 40 % hostile grammar documents of internal/gen; pango or go-text engine): each document rendered and written twice, rendered again in the opposite order (other history, one parsed user-agent sheet object reused), optionally once more with one font configuration reused; every group is executed a second time by another worker process (cases N..2N-1) and compared by the driver; (conc) 8 documents rendered by 8 goroutines at once for 4 (quick) / 12 (thorough) rounds with a rotating assignment, own font configuration per render, half of the cases with one shared parsed user-agent sheet, each concurrent trace compared with the document's sequential trace; (cold) the same with 8 small documents as the very first renders of a fresh process, 2 rounds. One case per worker process; all workers are the -race build and every report of the race detector is a violation. Non-trivial: at least one document of the case drew text and (det, primary copy only) some document has >= 2 pages; distinct = distinct input.",
+		Rule: "cases: (det) groups of 4 generated documents (60 % from a generator biased to ids/anchors/links, out-of-flow boxes broken at page boundaries, string-set/running elements, target-counter, per-document @counter-style definitions, hyphenation in 4 languages, data-URI and same-URL/different-content images, @font-face, tables/flex/grid/columns, pseudo-elements, invalid declarations, replacement user-agent sheets, grid containers with explicit fixed / auto / min-content / max-content / minmax / fr tracks, implicit tracks, auto-placed, explicitly placed and spanning items, alignment and nested grids, languages with region / script / variant subtags under quotes: auto with nested <q> and open-quote / close-quote pseudo-elements and hyphenation, footnotes, bookmark-label / string-set built from target-counter / target-text, SVG gradients inheriting through href chains; 40 % hostile grammar documents of internal/gen; pango or go-text engine): each document rendered and written twice, rendered again in the opposite order (other history, one parsed user-agent sheet object reused), every document of the biased generator rendered 4 more times (each render meets other map iteration orders), optionally once more with one font configuration reused; every group is executed a second time by another worker process (cases N..2N-1) and compared by the driver; (conc) 8 documents rendered by 8 goroutines at once for 4 (quick) / 12 (thorough) rounds with a rotating assignment, own font configuration per render, half of the cases with one shared parsed user-agent sheet, each concurrent trace compared with the document's sequential trace; (cold) the same with 8 small documents as the very first renders of a fresh process, 2 rounds. One case per worker process; all workers are the -race build and every report of the race detector is a violation. Non-trivial: at least one document of the case drew text and (det, primary copy only) some document has >= 2 pages; distinct = distinct input. Documents whose text has the input features of an open order-dependence defect (knownDefectDomain: grid with a spanning item and an fr track; grid with a percentage height; grid with footnotes; a language with two prefix keys of the quotes table without explicit quotes; SVG gradient href cycle) are rendered but left out of the comparisons and counted (docs_excluded_*); the biased generator avoids these combinations while the switches in gen.go are on.",
 		N:    func(tier string) int { s := sz(tier); return 2*s.det + s.conc + s.cold },
 		Gen: func(_ *rand.Rand, i int, tier string) any {
 			return genCase(runSeed(), i, tier)
@@ -209,12 +215,27 @@ func init() {
 				"race_detector_on":          int64((2*s.det + s.conc + s.cold) * 95 / 100),
 				"cold_start_cases":          int64(s.cold * 9 / 10),
 				"cold_start_hyphenating":    int64(s.cold / 2),
+				// families added for the order-dependence of layout and of language data
+				"pairs_repeat_extra":        int64(s.det * 4),
+				"docs_grid":                 int64(s.det / 2),
+				"docs_grid_spanning_item":   int64(s.det / 8),
+				"docs_grid_flexible_track":  int64(s.det / 8),
+				"docs_grid_intrinsic_track": int64(s.det / 4),
+				"docs_grid_nested":          int64(s.det / 20),
+				"docs_lang_subtags":         int64(s.det / 2),
+				"docs_lang_two_prefixes":    int64(s.det / 4),
+				"docs_nested_q":             int64(s.det / 4),
+				"docs_open_quote_auto":      int64(s.det / 4),
+				"docs_svg_gradient_href":    int64(s.det / 4),
+				"docs_footnote":             int64(s.det / 8),
 			}
 		},
 		Assumptions: []string{
 			"only the interleavings, map orders and races that were executed are judged; a race that needs an interleaving or an input that did not occur is not seen",
 			"documents never reference time, randomness or the environment; resources come from a deterministic in-memory fetcher; every render gets its own font configuration except in the explicit reuse variants (which skip documents with @font-face, whose faces are added to the configuration by design)",
 			"the cross-process comparison relies on the framework running different batches in different worker processes",
+			"an order dependence shows only if two of the 3 to 8 renders of a document met map iteration orders with different outcomes: an effect that needs one order in n is seen with probability about 1-(1-1/n)^7 per document that has it",
+			"five open order-dependence defects (known findings F-C15-grid-span-flex-order, -grid-row-percent-height-order, -grid-footnote-order, -lang-quotes-prefix-order, -svg-gradient-href-cycle-order) are not re-reported: their input features are kept out of the compared documents (generator switches + text predicate), so another order dependence that needs the same features is not seen either until they are repaired and the switches turned off",
 		},
 		// one case per worker process: every concurrent case meets the lazily filled process-wide
 		// caches (hyphenation dictionaries) cold, and the two copies of a det case never share a process
@@ -229,7 +250,7 @@ var quietOnce sync.Once
 // pairResult classifies two outcomes of the same document.
 func (c *checker) pair(mode string, di int, a, b *outcome) {
 	if c.excluded[di] {
-		c.res.Count("pairs_skipped_multi_broken_out_of_flow", 1)
+		c.res.Count("pairs_skipped_known_defect_domain", 1)
 		return
 	}
 	c.res.Count("pairs_"+mode, 1)
@@ -251,6 +272,9 @@ func (c *checker) pair(mode string, di int, a, b *outcome) {
 	strictOnly := a.anchorsSorted() == b.anchorsSorted()
 	d := c.in.Docs[di]
 	desc := fmt.Sprintf("document %d of the case (%s engine): %s", di, engineName(d.Engine), diff(a, b))
+	if why := defectDomain(&d, true); why != "" {
+		desc = "[document has the input features of the repaired or open order-dependence defect " + why + "] " + desc
+	}
 	if strictOnly {
 		c.res.Count("anchor_order_differences", 1)
 		if anchorOrderDefectOpen && !c.in.Strict {
@@ -281,6 +305,8 @@ func modeText(mode string) string {
 	switch mode {
 	case "repeat":
 		return "rendering the same document twice in a row"
+	case "repeat_extra":
+		return "rendering the same document again (one of several additional fresh renders)"
 	case "rewrite":
 		return "calling Document.Write a second time on the same rendered document"
 	case "history":
@@ -322,13 +348,109 @@ type checker struct {
 }
 
 func (c *checker) exclude(di int, o *outcome) {
+	if c.excluded == nil {
+		c.excluded = map[int]bool{}
+	}
 	if brokenOOFOrderDefectOpen && !c.in.Strict && o.MaxOOF >= 2 {
-		if c.excluded == nil {
-			c.excluded = map[int]bool{}
-		}
 		c.excluded[di] = true
 		c.res.Count("docs_excluded_multi_broken_out_of_flow", 1)
 	}
+	if why := knownDefectDomain(&c.in.Docs[di]); why != "" && !c.in.Strict && !c.excluded[di] {
+		c.excluded[di] = true
+		c.res.Count("docs_excluded_known_defect_domain", 1)
+		c.res.Count("docs_excluded_"+why, 1)
+	}
+}
+
+// extraRepeats: additional fresh renders of each biased document in a det case (pass 2b).
+const extraRepeats = 4
+
+var (
+	reGridSpan    = regexp.MustCompile(`span\s+[0-9]|grid-(column|row|area)\s*:[^;"}]*/`)
+	reFr          = regexp.MustCompile(`[0-9]fr\b`)
+	rePctHeight   = regexp.MustCompile(`height\s*:\s*[0-9.]+%`)
+	reLangTag     = regexp.MustCompile(`<[a-zA-Z][^<>]*\blang="([^"]*)"[^<>]*>`)
+	reGradientTag = regexp.MustCompile(`<(?:linearGradient|radialGradient|pattern)\b[^<>]*>`)
+	reIDAttr      = regexp.MustCompile(`\bid="([^"]*)"`)
+	reHrefAttr    = regexp.MustCompile(`\bhref="#([^"]*)"`)
+)
+
+// knownDefectDomain says whether a document contains a feature combination that triggers one of the
+// open order-dependence defects of the generator switches (gen.go): a precondition on the input text,
+// decided before anything is compared, deliberately wider than the trigger.  Such a document is still
+// rendered (panics, races) but left out of the trace comparisons.
+func knownDefectDomain(d *cdoc) string { return defectDomain(d, false) }
+
+// defectDomain: with all set, the switches are ignored (diagnostics in violation messages).
+func defectDomain(d *cdoc, all bool) string {
+	gridSpanFlexDefectOpen, gridPercentHeightDefectOpen := gridSpanFlexDefectOpen || all, gridPercentHeightDefectOpen || all
+	langQuotesPrefixDefectOpen, svgHrefCycleDefectOpen := langQuotesPrefixDefectOpen || all, svgHrefCycleDefectOpen || all
+	t := docText(d)
+	if strings.Contains(t, "grid") {
+		// biased documents: footnotes inside grid items have their own class; others: any footnote
+		if (gridFootnoteOrderDefectOpen || all) && (d.Biased && strings.Contains(t, `class="fg"`) || !d.Biased && strings.Contains(t, "footnote")) {
+			return "grid_footnote"
+		}
+		if gridSpanFlexDefectOpen && reFr.MatchString(t) && reGridSpan.MatchString(t) {
+			return "grid_span_flex"
+		}
+		if gridPercentHeightDefectOpen && rePctHeight.MatchString(t) {
+			return "grid_percent_height"
+		}
+	}
+	if langQuotesPrefixDefectOpen {
+		for _, m := range reLangTag.FindAllStringSubmatch(t, -1) {
+			if !langSafe(m[1]) && !strings.Contains(m[0], "quotes:") {
+				return "lang_quotes_prefix"
+			}
+		}
+	}
+	if svgHrefCycleDefectOpen && strings.Contains(t, "Gradient") {
+		if hrefCycle(t) {
+			return "svg_href_cycle"
+		}
+	}
+	return ""
+}
+
+// langSafe: at most one key of the quotes table (keys: 2 or 3 letters, optionally "_" + subtag) can be
+// a proper prefix of the tag, or the tag can only match exactly.
+func langSafe(l string) bool {
+	if strings.Contains(l, "_") {
+		// a key itself (exact match) is safe only if the generator says so: fr_CA, fr_CH, el_POLYTON
+		return l == "fr_CA" || l == "fr_CH" || l == "el_POLYTON"
+	}
+	primary := l
+	if i := strings.IndexByte(l, '-'); i >= 0 {
+		primary = l[:i]
+	}
+	return len(primary) <= 2 || len(l) <= 3
+}
+
+// hrefCycle: the gradient / pattern elements of the text reference each other in a cycle of length >= 2.
+func hrefCycle(t string) bool {
+	next := map[string]string{}
+	for _, tag := range reGradientTag.FindAllString(t, -1) {
+		id := reIDAttr.FindStringSubmatch(tag)
+		h := reHrefAttr.FindStringSubmatch(tag)
+		if id != nil && h != nil && id[1] != h[1] {
+			next[id[1]] = h[1]
+		}
+	}
+	for start := range next {
+		cur := start
+		for n := 0; n <= len(next); n++ {
+			nx, ok := next[cur]
+			if !ok {
+				break
+			}
+			if nx == start {
+				return true
+			}
+			cur = nx
+		}
+	}
+	return false
 }
 
 func check(raw json.RawMessage) fw.Result {
@@ -395,6 +517,22 @@ func (c *checker) account(d *cdoc, o *outcome) {
 	}
 	if strings.Contains(d.HTML, "@font-face") {
 		c.res.Count("docs_font_face", 1)
+	}
+	if d.Biased {
+		for _, f := range [][2]string{
+			{`class="gr"`, "docs_grid"}, {" data-gs", "docs_grid_spanning_item"}, {" data-gf", "docs_grid_flexible_track"}, {" data-gn", "docs_grid_nested"},
+			{" data-ls", "docs_lang_subtags"}, {" data-la", "docs_lang_two_prefixes"}, {" data-q2", "docs_nested_q"}, {`class="oq"`, "docs_open_quote_auto"},
+			{"mem://doc/grad.svg", "docs_svg_gradient_href"}, {`class="fn"`, "docs_footnote"}, {`class="fg"`, "docs_footnote_in_grid"}, {`class="tc bt"`, "docs_bookmark_target"},
+		} {
+			if strings.Contains(d.HTML, f[0]) {
+				c.res.Count(f[1], 1)
+			}
+		}
+		if strings.Contains(d.HTML, "minmax(") || strings.Contains(d.HTML, "min-content") {
+			if strings.Contains(d.HTML, `class="gr"`) {
+				c.res.Count("docs_grid_intrinsic_track", 1)
+			}
+		}
 	}
 }
 
@@ -535,6 +673,20 @@ func (c *checker) det() {
 			c.pair(mode, di, first[di], o)
 			if in.Docs[di].UA != "" {
 				c.res.Count("pairs_shared_ua", 1)
+			}
+		}
+		// pass 2b: additional fresh renders (other map iteration orders every time)
+		for _, di := range order {
+			k := in.Repeats
+			if k == 0 && in.Docs[di].Biased {
+				k = extraRepeats
+			}
+			if c.excluded[di] || first[di].Kind == "toolong" {
+				continue
+			}
+			for ; k > 0; k-- {
+				o, _ := c.render(di, renderOpts{})
+				c.pair("repeat_extra", di, first[di], o)
 			}
 		}
 		// pass 3: one font configuration per engine reused by every render of the pass
@@ -755,6 +907,7 @@ func post(run *fw.RunInfo) []fw.PostViolation {
 func extra(run *fw.RunInfo, cov map[string]any) {
 	cov["comparisons"] = map[string]int64{
 		"same document twice in a row":                       run.Counters["pairs_repeat"],
+		"same document again, additional fresh renders":      run.Counters["pairs_repeat_extra"],
 		"Document.Write twice":                               run.Counters["pairs_rewrite"],
 		"same document after other documents":                run.Counters["pairs_history"],
 		"... of which with a shared user-agent sheet object": run.Counters["pairs_shared_ua"],
